@@ -1296,12 +1296,9 @@ class C06(Property):
             gD, factor = fD * 3, 3
           elif sib[0] == "rscale3":
             gD, factor = 3 * fD, 3
-          elif sib[0] == "same" and all(c[0] == "c" for k, c in ht["den"]
-                                        if k == 0):
-            # the very same filter called twice (not with a Stream a0: the
-            # variable-gain call rewrites the filter's own denominator on
-            # the pinned tree, calling such an object twice is outside the
-            # statement - seeded/NOTES.json C06h-1)
+          elif sib[0] == "same":
+            # the very same filter object called twice (its coefficient
+            # streams are 2-use hubs, so both calls have their streams)
             gD, factor = fD, 1
           elif sib[0] == "copy":      # f.copy() and f
             gD, factor = fD.copy(), 1
